@@ -54,7 +54,9 @@ type Monitors struct {
 	sawTimer    map[string]bool
 
 	// error counting (C13)
-	errCount map[string]int // run|proc|err -> failing invocations since the last pause
+	errCount       map[string]int  // run|proc|err -> failing invocations since the last pause
+	pausePending   map[string]bool // the pause at the threshold was attempted but cut by a fault
+	pauseUncertain map[string]bool
 
 	// hooks (C14)
 	hookOK map[string]bool // "rs/run/version" -> hook returned nil
@@ -72,11 +74,11 @@ type Monitors struct {
 func newMonitors(w *World) *Monitors {
 	return &Monitors{w: w, entryWrite: map[int][2]int{}, evWrite: map[int][2]int{}, readVer: map[string]uint{}, inflight: map[string]int{}, unacked: map[string]int{}, advers: map[string]bool{}, recvTopic: map[string]string{},
 		sentOK: map[int]bool{}, pubOK: map[string]int{}, awaits: map[string]int{}, lastFailure: map[string]string{}, sawTimer: map[string]bool{},
-		errCount: map[string]int{}, hookOK: map[string]bool{}, NonTrivial: map[string]bool{}}
+		errCount: map[string]int{}, pausePending: map[string]bool{}, pauseUncertain: map[string]bool{}, hookOK: map[string]bool{}, NonTrivial: map[string]bool{}}
 }
 
 func (m *Monitors) violate(prop, oracle, sig, detail string) {
-	if m.after != "" && !strings.Contains(sig, "+") {
+	if m.after != "" && !strings.Contains(sig, "+") && !strings.HasPrefix(sig, "newer-event-acknowledged") && !strings.HasPrefix(sig, "function-ran-on-record-older-than-its-event") {
 		// downstream of a listed finding class hit earlier in this history
 		sig += "+after(" + m.after + ")"
 	}
@@ -251,6 +253,16 @@ func (m *Monitors) adapterCall(ctx context.Context, proc, label string) {
 		m.violate("C11", "lease-on-every-call", "adapter-call-outside-lease:"+strings.SplitN(label, "(", 2)[0],
 			fmt.Sprintf("process %s called %s with lease %s instead of its current lease", m.opTok, label, got))
 	}
+	// C07 lag: the handler's first store access for a delivery must not happen before the event has aged by the lag
+	// (checked also when the context is already cancelled: the handler was started all the same)
+	if idx, ok := m.inflight[proc]; ok && (label == "lookup") {
+		if lag := m.lagOf(m.opTok); lag > 0 {
+			age := w.Clk.Now().Sub(w.log[idx].CreatedAt)
+			if age < lag {
+				m.violate("C07", "consume-lag", "handled-before-lag", fmt.Sprintf("process %s started handling event e%d aged %v, configured lag %v (context cancelled: %v)", m.opTok, idx, age, lag, ctx != nil && ctx.Err() != nil))
+			}
+		}
+	}
 	// an injected fault at this call index marks the delivery as failed
 	if ctx != nil && ctx.Err() != nil {
 		return
@@ -266,15 +278,6 @@ func (m *Monitors) adapterCall(ctx context.Context, proc, label string) {
 			m.lastFailure[proc] = "error"
 		}
 		m.NonTrivial["fault:"+m.pathName()+":"+strings.SplitN(label, "(", 2)[0]+":"+k.String()] = true
-	}
-	// C07 lag: the handler's first store access for a delivery must not happen before the event has aged by the lag
-	if idx, ok := m.inflight[proc]; ok && (label == "lookup") {
-		if lag := m.lagOf(m.opTok); lag > 0 {
-			age := w.Clk.Now().Sub(w.log[idx].CreatedAt)
-			if age < lag {
-				m.violate("C07", "consume-lag", "handled-before-lag", fmt.Sprintf("process %s started handling event e%d aged %v, configured lag %v", m.opTok, idx, age, lag))
-			}
-		}
 	}
 }
 
@@ -442,6 +445,14 @@ func (m *Monitors) onInvoke(inv Invocation) {
 				m.violate("C04", "acted-only-when-current", "acted-on-event-v"+cmp(evv, int(inv.Persisted.Meta.Version))+"-persisted in "+m.pathName(),
 					fmt.Sprintf("%s function invoked for event e%d carrying version %d while run r%d is persisted at version %d (record handed to it: v%d)", inv.Kind, idx, evv, inv.Run, inv.Persisted.Meta.Version, inv.SeenVer))
 			}
+			// the record handed to the function is older than the event that triggered it: the store lagged and the event should
+			// have been retried (C04), the function does not observe the persisted object (C16)
+			if uint(evv) > inv.SeenVer {
+				for _, pr := range []string{"C04", "C16"} {
+					m.violate(pr, "newer-event-retried", "function-ran-on-record-older-than-its-event:"+inv.Kind,
+						fmt.Sprintf("%s function invoked with the record at version %d for event e%d announcing version %d (persisted: version %d)", inv.Kind, inv.SeenVer, idx, evv, inv.Persisted.Meta.Version))
+				}
+			}
 			// … independently of the version numbers: the event announces the k-th write of the run; it is old when the run has more writes
 			if aw, ok := m.evWrite[idx]; ok {
 				if rr, ok2 := w.byID[inv.Persisted.RunID]; ok2 && aw[1] < len(rr.versions) && !m.tainted {
@@ -567,10 +578,19 @@ func (m *Monitors) checkPauseAt(rr *runRec, c *workflow.Record) {
 	cnt := m.errCount[key]
 	if n == 0 {
 		m.violate("C13", "never-paused-when-unconfigured", "paused-without-threshold", fmt.Sprintf("run r%d paused by %s although no error count is configured", rr.ord, m.opTok))
+	} else if m.pauseUncertain[key] {
+		// an earlier pause of this key happened under an injected fault (e.g. the Paused write took effect but returned an error, so
+		// the library did not clear its counter): outside C13's quantifier, counts for this key are no longer comparable
+	} else if cnt > n && m.pausePending[key] {
+		// an earlier attempt to pause at the n-th occurrence failed on an injected store fault; this occurrence completes it
 	} else if cnt != n {
 		m.violate("C13", "paused-at-nth", "paused-at-wrong-count", fmt.Sprintf("run r%d paused by %s at occurrence %d of %s, configured %d", rr.ord, m.opTok, cnt, errMsg(inv.Outcome), n))
 	}
 	m.errCount[key] = 0
+	if len(m.w.env.Faults) > 0 || m.opLeaseLost {
+		m.pauseUncertain[key] = true
+	}
+	delete(m.pausePending, key)
 	m.opFnErr = ""
 	m.opFailed = false // handled: the event is acknowledged by design
 	m.NonTrivial["auto-pause:"+strconv.Itoa(n)] = true
@@ -588,6 +608,9 @@ func (m *Monitors) pauseMissed() {
 		return
 	}
 	key := fmt.Sprintf("%d|%s|%s", inv.Run, m.opTok, errMsg(inv.Outcome))
+	if m.errCount[key] >= n && (len(m.w.env.Faults) > 0 || m.opLeaseLost) {
+		m.pausePending[key] = true
+	}
 	if m.errCount[key] >= n && !isStopped(int(inv.Persisted.RunState)) && len(m.w.env.Faults) == 0 && !m.opLeaseLost {
 		m.violate("C13", "paused-at-nth", "not-paused-at-threshold",
 			fmt.Sprintf("run r%d: occurrence %d of %s in %s reached the configured count %d but the run was not paused", inv.Run, m.errCount[key], errMsg(inv.Outcome), m.opTok, n))
@@ -641,7 +664,7 @@ func (m *Monitors) onAck(name string, idx int) {
 		evv, _ := strconv.Atoi(w.log[idx].Headers[workflow.HeaderRecordVersion])
 		tok := w.sim.Tok[name]
 		if (strings.HasPrefix(tok, "st:") || strings.HasPrefix(tok, "ins:")) && uint(evv) > v && !m.filteredAck {
-			m.violate("C04", "newer-event-retried", "newer-event-acknowledged:"+strings.SplitN(tok, ":", 2)[0]+m.afterFlag(),
+			m.violate("C04", "newer-event-retried", "newer-event-acknowledged:"+strings.SplitN(tok, ":", 2)[0],
 				fmt.Sprintf("%s acknowledged e%d carrying version %d although the store answered with version %d (a lagging read): the announcement is dropped instead of retried", tok, idx, evv, v))
 		}
 	}
